@@ -78,9 +78,10 @@ Definition run_assembles (feat : bool) (src : list N) : bool :=
 Definition path := N.
 Definition fs := path -> option (list N).
 
-(** What the operating system does with [write_object_file] (since the repair F39: an absent or regular destination is
-    written to a temporary file next to it, which is then renamed over it; a device, pipe, link or directory - and a
-    destination whose directory takes no new file - is created/truncated and written directly); chosen by an oracle. *)
+(** What the operating system does with [write_object_file] (since the repairs F39 / F41: an absent or regular destination -
+    or the regular file a symbolic link names - is written to a temporary file next to it, under a short name of its own,
+    which is then renamed over it; a device, pipe, dangling link or directory - and a destination whose directory takes no
+    new file - is created/truncated and written directly); chosen by an oracle. *)
 Inductive write_outcome :=
 | WOk                          (* everything written (temporary file renamed into place, or direct write complete) *)
 | WCreateFail                  (* neither a temporary file nor the destination can be created: nothing changes *)
